@@ -9,7 +9,8 @@
 * write/parse helpers that use a temporary directory and delete it
 
 Nothing here imports the Coq model or spydrnet's EDIF code (only the public IR classes)."""
-import os, shutil, tempfile, zipfile, io
+import os, re, shutil, tempfile, zipfile, io
+from fractions import Fraction
 import spydrnet as sdn
 from spydrnet.ir import InnerPin, OuterPin, Port, Instance, Definition
 
@@ -294,6 +295,25 @@ def expressible(netlist):
 # ------------------------------------------------------------------------------------------------
 # independent s-expression reader
 # ------------------------------------------------------------------------------------------------
+def unescape(s):
+    """EDIF string VALUE: %n n ..% (integers separated by blanks, at least one) stands for the characters
+    with these codes; a percent sign that does not open such a group is an ordinary character.
+    Hand-written scanner (the reader uses a regular expression)."""
+    out = []
+    i = 0
+    while i < len(s):
+        if s[i] == '%':
+            j = s.find('%', i + 1)
+            words = s[i + 1:j].split() if j > i else []
+            if words and all(re.fullmatch(r'[-+]?[0-9]+', w) for w in words) and not s[i + 1:j].strip(' \t0123456789+-'):
+                out.append(''.join(chr(int(w)) for w in words))
+                i = j + 1
+                continue
+        out.append(s[i])
+        i += 1
+    return ''.join(out)
+
+
 class SexpError(Exception):
     pass
 
@@ -388,7 +408,9 @@ def doc_summary(doc):
                             tv = pr[2]
                             kind = head(tv)
                             if kind == 'string':
-                                val = ['str', tv[1][1]]
+                                val = ['str', unescape(tv[1][1])]
+                            elif kind == 'number' and isinstance(tv[1], list) and head(tv[1]) == 'e':
+                                val = ['float', repr(float(Fraction(int(tv[1][1][1])) * Fraction(10) ** int(tv[1][2][1])))]
                             elif kind == 'integer':
                                 val = ['int', tv[1][1]]
                             elif kind == 'boolean':
